@@ -17,7 +17,8 @@ CHECKS = {
              "every 2-byte header x TLV-boundary tails is run through the real "
              "encoder/decoder and compared field-wise with an independently "
              "written LLCP reader; exhaustive over the stated space."
-             " Also one PDU object encoded more than once with attributes assigned in between.",
+             " Also one PDU object encoded more than once with attributes assigned in between."
+             " Members of an aggregate changed after the first encode are followed by len() and encode().",
         note="Trusted: ref/llcp_codec.py (independent reading of LLCP 1.3); "
              "byte strings longer than 3 octets are an enumerated grammar, not "
              "all strings."),
@@ -52,7 +53,8 @@ CHECKS = {
              "points also run on the real acr122, pn533 and rcs380 drivers over "
              "a simulated reader, where every host-link transfer (also of "
              "threads a driver starts itself) is checked for lock ownership "
-             "and overlap.",
+             "and overlap."
+             " Entry points include leaving the with-block through KeyboardInterrupt / an application error.",
         note="Scheduling points: lock acquisition, sleeps and a point inside "
              "every driver method; 2-3 threads; the proxy driver answers like "
              "a Type 2 tag / FeliCa reader so that connect() runs through "
@@ -69,7 +71,8 @@ CHECKS = {
              "values of both sides are compared with what the peer announced "
              "and three maximal UI PDUs each way are checked on the air log "
              "against the receiver's LR and the selected bit rate."
-             " Also activations in which the side that becomes Initiator was given no role.",
+             " Also activations in which the side that becomes Initiator was given no role."
+             " Also: data responses lost while attention is answered (the Initiator gives up within the announced link timeout) and an Initiator with a node address.",
         note="Both devices are nfcpy; passive activation at 106A over the "
              "virtual air; default schedule, no faults (those are C04/C09)."),
     'C06': dict(
@@ -85,7 +88,8 @@ CHECKS = {
              "sockets); octets at the server application and at the client "
              "must equal the sent ones exactly once, over-limit messages must "
              "be refused without partial delivery."
-             " Also Get with a second idle connection (other receive MIU) to the same server.",
+             " Also Get with a second idle connection (other receive MIU) to the same server."
+             " Also one SnepClient object over temporary and explicit connections to two services, and handover select messages whose k-th fragment ends with a record.",
         note="Default schedule, no faults; both devices are nfcpy; the SNEP "
              "client's own socket parameters are fixed by the library "
              "(MIU 128, RW 1)."),
@@ -101,7 +105,8 @@ CHECKS = {
              "framing and RTOX positions; delivered payloads are compared with "
              "the sent lists (exactly once, in order, complete), single faults "
              "per step must be recovered, only CommunicationError may be "
-             "raised, and no frame may exceed the receiver's LR.",
+             "raised, and no frame may exceed the receiver's LR."
+             " Also a fault-free sweep of every payload size (every length octet value) at both bit rates.",
         note="Faults are loss and CRC-type corruption per frame; no timer "
              "races; the channel and frame parser are sim/depchan.py; the "
              "grid is a covering selection stated in the evidence."),
@@ -117,7 +122,8 @@ CHECKS = {
              "for large tags) the write must succeed, a fresh activation must "
              "read the same octets, capacity must not exceed the independent "
              "layout model and capacity+1 must be rejected before any command."
-             " Also Type 3 Tags above 64 KiB (Ln uses its upper octet).",
+             " Also Type 3 Tags above 64 KiB (Ln uses its upper octet)."
+             " The quick tier includes the Ultralight whose memory ends with the data area and Type 2 reserved ranges across the sector border.",
         note="Simulators (sim/t1t..t4t.py) and layout models (ref/tlv.py, "
              "ref/t3.py, ref/t4.py) are the trusted base; grid in the "
              "evidence."),
@@ -143,7 +149,8 @@ CHECKS = {
              "that record each write with its address range and make lock/OTP "
              "bits one-way; the memory diff must be confined to the NDEF area "
              "computed by the independent model and no write command may "
-             "address a unit wholly outside it.",
+             "address a unit wholly outside it."
+             " Also format() followed by a write on the same tag object, judged against the layout after the format.",
         note="As C01; format of products that re-create management data by "
              "design is judged on UID/lock/OTP/reserved/out-of-area bytes "
              "only."),
@@ -178,7 +185,8 @@ CHECKS = {
              "<= 2 (thorough 3) lost/corrupted blocks or WTX requests is "
              "executed; the card must execute each APDU at most once, a "
              "returned response must be that execution's, failures must be "
-             "Type4TagCommandError, no block may exceed FSC.",
+             "Type4TagCommandError, no block may exceed FSC."
+             " Includes the largest legal response (65538 octets).",
         note="The reference PICC (sim/picc.py) is the trusted base; the "
              "'must succeed' set is defined conservatively (2f-1 <= budget) "
              "and documented in the driver."),
@@ -214,7 +222,8 @@ CHECKS = {
              "must be rejected with IOError unless the validator accepts it; "
              "CRC_A/B helpers and the drivers' CRC checks are compared with a "
              "bitwise ISO 14443-3 reference on all short messages, all "
-             "trailers and all 1-/2-bit flips of longer frames.",
+             "trailers and all 1-/2-bit flips of longer frames."
+             " Also two Type A targets one after the other on one device object (CRC check routing must not leak).",
         note="ref/hostframe.py and ref/crc.py are the trusted base (CRC "
              "checked against the ISO annex vectors)."),
     'C20': dict(
@@ -234,7 +243,8 @@ CHECKS = {
              "for three write-counter behaviours of the tag model, text "
              "passwords with characters above U+007F, protect on a tag that "
              "already holds a key."
-             " Also authenticate / protect histories on ONE NTAG21x object judged against the tag model's latched key and answering state.",
+             " Also authenticate / protect histories on ONE NTAG21x object judged against the tag model's latched key and answering state."
+             " Well-formed read responses with another block count are part of the tamper alphabet.",
         note="Only the single-block DES primitive (pyDes) is shared with the "
              "library and cross-checked against openssl; not an adaptive "
              "forger."),
@@ -272,7 +282,8 @@ CHECKS = {
              "issues a second lookup while the first is outstanding (its "
              "transaction identifier chosen adversarially); every transition "
              "is compared with ref/addrtable.py."
-             " Includes accepted sockets left open after the client disconnected (connect_lazy).",
+             " Includes accepted sockets left open after the client disconnected (connect_lazy)."
+             " Includes a service bound before the link came up (announced in the WKS list).",
         note="Depth bounds in the evidence; blocking calls run in a virtual "
              "thread while the link is pumped; named-range exhaustion errno "
              "is compared leniently (EADDRNOTAVAIL vs EAGAIN)."),
@@ -292,7 +303,8 @@ CHECKS = {
              "on-release exactly once per true on-connect, return value class, "
              "promptness after terminate, field-off and stale-target rules "
              "are judged by ref/connect_contract.py."
-             " Also the n-th driver call raising IOError / KeyboardInterrupt at every n: connect() returns False.",
+             " Also the n-th driver call raising IOError / KeyboardInterrupt at every n: connect() returns False."
+             " Also: an empty option dictionary behaves like spelled-out defaults; exchange() racing sense/listen/close of another thread never hands a stale target to the driver.",
         note="Default schedule; the device and the LLCP peer are scripted; "
              "where docstring and code disagree on something the property "
              "does not mention both are accepted."),
@@ -310,7 +322,8 @@ CHECKS = {
              "must be absorbed with the same result and memory, larger ones "
              "must end in a TagCommandError with the matching errno or the "
              "documented None/False, never a raw error, and answered commands "
-             "must not be re-sent.",
+             "must not be re-sent."
+             " Also histories on one tag object (a write that fails for good, another operation, the write again) and a two-system FeliCa Standard card.",
         note="Retry budgets are read from the code and listed in the "
              "evidence; one burst per run; ISO-DEP WTX defects are C12's."),
     'C07': dict(
@@ -333,7 +346,8 @@ CHECKS = {
              "connect(card=...); decode: all strings of length 0..2 and all "
              "PFB values through the NFC-DEP frame decoders.  connect() must "
              "return, no thread may die with an uncaught exception or block."
-             " Part dep: every crafted NFC-DEP frame followed by every kind of data exchange PDU (complete / truncated).",
+             " Part dep: every crafted NFC-DEP frame followed by every kind of data exchange PDU (complete / truncated)."
+             " Part air also runs mutation-free conversations with legal but unusual peers (DID, frames filled to the limit).",
         note="One malformed input per run (thorough: larger alphabets, both "
              "roles); virtual threads under the default schedule; the peer "
              "is nfcpy itself (air) or sim/peer.py."),
